@@ -734,7 +734,12 @@ class Storage:
                 rec.probe('overwrite_longer_file')
         with open(p, 'rb') as fh:
             data = fh.read()
-        text = data.decode(enc)
+        try:
+            text = data.decode(enc)
+        except UnicodeDecodeError as e:
+            rec.check('C12.overwrite_exact', False, lambda: f'file {target} is not valid {enc} after tofile: {e}')
+            self.files.pop(target, None)
+            return rec.log('undecodable')
         # the file holds exactly the new text (no stale tail), i.e. what tostring() gives
         s = self.send(node, {'op': 'tostring', 'slot': slot, 'frmat': frmat, 'kwargs': kwargs})
         if s['ok'] and frmat != 'python-literal':
@@ -876,7 +881,7 @@ class Storage:
         if f is None or f.get('writer') != 'lib' or f['form'] not in ('table', 'cxt', 'csv'):
             return rec.log('noop')
         with open(self.path(target), 'rb') as fh:
-            text = fh.read().decode(f['enc'])
+            text = fh.read().decode(f['enc'], errors='replace')
         self.ref_read_check(f['form'], text, f, f.get('kwargs', {}), f'file {target}')
         rec.log('ok')
 
